@@ -4,6 +4,7 @@ CONSTANTS
   NUp = 2
   NDown = 2
   MaxFaults = 12
+  MaxDrops = 0
 SPECIFICATION GenSpec
 INVARIANTS TypeOK PrefixDelivered OnlyOwnSegments OneAcceptPerSession OneCurrent NeverDead
 CHECK_DEADLOCK FALSE
